@@ -63,7 +63,7 @@ def h_dt_data(f, N, mode, period=None, txt=None):
         res = []
         w = dt.trace(env, vs, N, ext=False)
         if mode == 'offline':
-            s = dt.make_spec('offline', 'out = ' + (txt or text(f)), vs, period=period)
+            s = dt.make_spec('offline~', 'out = ' + (txt or text(f)), vs, period=period)
             data = {'time': list(range(N))}
             for v in vs:
                 data[v] = list(w[v])
@@ -79,7 +79,7 @@ def h_dt_data(f, N, mode, period=None, txt=None):
             res += dt.eq_list(A, 'repeat3', [p[1] for p in r3], r1v)
             res += dt.eq_list(A, 'repeat-rho', r1v, refsem.rho(A, f, w, N))
         else:
-            s = dt.make_spec('online', 'out = ' + text(f), vs)
+            s = dt.make_spec('online~', 'out = ' + text(f), vs)
             outs = []
             for i in range(N):
                 data = [[v, w[v][i]] for v in vs]
